@@ -376,7 +376,20 @@ func (c *Ctx) d5Reader(name string, size int64, isDecoder func(*ssa.Function) bo
 			why = append(why, fmt.Sprintf("ReadAtLeast minimum %d != %d", m, size))
 		}
 	}
-	if dec.Common().Args[1] != buf {
+	// the decoder's input is the buffer, possibly carried through a join whose other edges are nil (error exits)
+	given := dec.Common().Args[1]
+	if phi, isPhi := given.(*ssa.Phi); isPhi {
+		var nonNil []ssa.Value
+		for _, e := range phi.Edges {
+			if !core.IsNilConst(e) {
+				nonNil = append(nonNil, e)
+			}
+		}
+		if len(nonNil) == 1 {
+			given = nonNil[0]
+		}
+	}
+	if given != buf {
 		ok = false
 		why = append(why, "the decoder is not given the buffer that was read")
 	}
